@@ -23,6 +23,16 @@ def rd(p):
 
 def install(it, log):
     X14.install_storage_hooks(it, log)
+    news = []
+    orig_new = it.hooks["vp_new"]
+    def h_new(it_, a):
+        p = orig_new(it_, a); news.append(p.obj); return p
+    def h_delete(it_, a):
+        p = a[0]
+        if p.obj is None: return None
+        if not p.obj.live or p.off != 0: raise G.MemError("delete[] of a freed pointer / not the start of an array")
+        p.obj.live = False
+    it.hooks["vp_new"] = h_new; it.hooks["vp_delete"] = h_delete; it._news = news
     def chars(p, n=None):
         out = []; k = p.off
         while n is None or len(out) < n:
@@ -49,13 +59,12 @@ def expected_write(key, value):
     if len(key) <= 8:
         if any(not (c.isupper() or c.isdigit() or c in "-_") for c in key): return "reject"       # malformed standard keyword
         if any(c in "-_" for c in key): return None
-        if len(value) > 68: return "reject" if len(value) >= 72 else None
-        return "accept"
+        # fixed-format string card: "KEYWORD = '" occupies columns 1-11, the closing quote must be at or before column 80
+        return "reject" if len(value) > 68 else "accept"
     if any(c == "=" or c.islower() for c in key): return "reject"                                  # malformed HIERARCH keyword
-    room = 80 - (9 + len(key) + 4)
-    if len(value) > room + 2: return "reject"
-    if len(value) <= room - 2: return "accept"
-    return None
+    # HIERARCH card as cfitsio lays it out: "HIERARCH " + key + "= '" + value + "'" must fit the 80 columns (continued strings are not used)
+    room = 80 - (9 + len(key) + 3 + 1)
+    return "reject" if len(value) > room else "accept"
 
 def run_history(hist):
     t0 = time.time(); tag = "history " + " ; ".join("%s(%s)" % (o[0], ",".join(repr(x)[:14] for x in o[1:])) for o in hist)
@@ -100,14 +109,28 @@ def run_history(hist):
         live = [o for (k, o, n) in log if k == "allocate" and o.live]
         if any(id(o) not in reach for o in live): bad.append("%d allocator blocks are live but unreachable from the store (leak)" % len([o for o in live if id(o) not in reach]))
         if len(set(id(o) for o in live)) != len(reach): bad.append("store references a released block")
+        if any(o.live for o in it._news): bad.append("%d scratch new[] arrays were never deleted" % len([o for o in it._news if o.live]))
         return [(tag, not bad, "; ".join(bad[:3])[:500], time.time() - t0)]
     except Exception as ex:
         return [(tag + " execution [%s]" % str(ex)[:80], False, "%s: %s" % (type(ex).__name__, ex), time.time() - t0)]
 
 LONG = "LONGER KEY NAME"
 OPS = [("write", "A", "1"), ("write", "A", "two"), ("write", "B2", ""), ("write", LONG, "3.5e7"), ("write", "ORDER3", "x"), ("write", "lower", "x"), ("write", "A.B", "x"),
-       ("write", LONG.lower(), "x"), ("write", "LONGER Key NAME", "x"), ("write", "SHORT lc", "y"), ("write", "KEY=LONGISH", "x"), ("write", "PERIOD0", "1"), ("write", "Ab", "x"), ("write", "A", "v" * 75), ("write", LONG, "w" * 70), ("write", "Z9", "it's 'quoted'"),
+       ("write", LONG.lower(), "x"), ("write", "LONGER Key NAME", "x"), ("write", "SHORT lc", "y"), ("write", "KEY=LONGISH", "x"), ("write", "PERIOD0", "1"), ("write", "Ab", "x"), ("write", "ORDERSTATISTIC", "1"), ("write", "COMMENTARY", "c"), ("write", "AB", "ab"), ("write", "A", "1"), ("write", "B2", "q"), ("write", "A", "v" * 75), ("write", LONG, "w" * 70), ("write", "A", "e" * 68), ("write", "A", "f" * 69), ("write", LONG, "g" * (67 - len(LONG))), ("write", LONG, "h" * (68 - len(LONG))), ("write", "Z9", "it's 'quoted'"),
        ("remove", "A"), ("remove", "B2"), ("remove", "NOPE"), ("remove", LONG), ("get", "A"), ("get", "B2"), ("get", "NOPE"), ("get", LONG)]
+
+def api_instantiates():
+    """the functions whose extracted text is executed must be the code a C++ user gets: instantiate each of them natively"""
+    src = os.path.join(vlib.workdir(), "c16_api.cpp")
+    with open(src, "w") as f:
+        f.write('#include <photospline/splinetable.h>\n#include <string>\nint main(){ photospline::splinetable<> t; t.write_key("A", 1); t.write_key("B", std::string("s")); t.write_key("C", 2.5);\n'
+                ' const char* v = t.get_aux_value("A"); int i = 0; std::string s; bool ok = v && t.read_key("A", i) && t.read_key("B", s) && i == 1 && s == "s";\n'
+                ' ok = ok && t.remove_key("A") && !t.get_aux_value("A") && t.get_aux_value("B") && !t.remove_key("A"); return ok ? 0 : 1; }\n')
+    exe = os.path.join(vlib.workdir(), "c16_api")
+    rc, out, w = vlib.sh("g++ -std=c++11 -g -fsanitize=address,undefined -I%s/include %s %s/src/core/*.cpp -lcfitsio -o %s" % (vlib.REPO, src, vlib.REPO, exe), timeout=600)
+    if rc != 0: return False, "does not compile: " + " | ".join(l for l in out.splitlines() if "error" in l)[:400], out
+    rc, out, w = vlib.sh(exe, timeout=60)
+    return rc == 0, "" if rc == 0 else "native smoke run failed (exit %d): %s" % (rc, out[:300]), out
 
 def main():
     global PROG
@@ -132,13 +155,16 @@ def main():
     for o in flat:
         if not o[1]: rep.add_violation("C16-histories", o[0].replace(" ", "_")[:150], o[0][:300] + ": " + o[2], trace=o[2])
     rep.samples += [o[0][:200] for o in flat[5:8]]
+    t1 = time.time(); ok, det, out = api_instantiates()
+    rep.add_group("native C++ instantiation of the functions under contract (g++, ASan/UBSan smoke run)", 1, 1 if ok else 0, time.time() - t1, bounded="one program using write_key<int/double/string>, get_aux_value, read_key<int/string>, remove_key", name="C16-api-instantiates")
+    if not ok: rep.add_violation("C16-api-instantiates", "write_key/get_aux_value/read_key/remove_key_instantiate_and_run", "the key-store API does not instantiate / run natively: " + det, trace=out[-3000:], replay=dict(replayed=True, input="c16_api.cpp (generated)", observed=out[-2500:]))
     rep.extra["evaluations"] = len(hists); rep.extra["distinct_nontrivial"] = len(set(h for h in hists if len(h) >= 2))
     rep.extra["rule"] = "one evaluation = one operation history executed from the extracted code and compared step by step with an ordered-map model; non-trivial = at least two operations; histories are distinct tuples"
     rep.assume("IN-MEMORY HALF ONLY: typed reads (read_key<T> through std::istringstream) and the survival of accepted entries through a FITS round trip (cfitsio) are NOT covered",
                "BOUNDED: enumerated / random operation histories over a small key and value alphabet (standard keys, HIERARCH key, reserved prefix, lower-case and punctuated keys, empty / quoted / over-long values)",
                "the text of the value (operator<< of the value type) is a parameter (R23); allocation failure is not modelled (R22: catch(...) handlers dropped); libc/ctype/std::copy semantics supplied by the interpreter",
                "acceptance oracle written from the property statement: reserved prefixes, lower-case/punctuated standard keys, '='/lower-case in long keys and clearly over-long values must be rejected; plain short keys with short values must be accepted; borderline lengths and '-'/'_' in standard keys are not judged",
-               "observation (not part of C16): remove_key allocates a temporary new[] array that is only deleted in its catch handler, i.e. leaked on every successful removal")
+               "the extraction to C does not type-check as C++: a separate native obligation instantiates every function under contract with g++ (this is how the uncompilable remove_key of the pinned tree shows up)")
     rep.trust("tools/gotoexec.py", "goto-cc front end", "tools/extract.py rules")
     rep.finish(None)
 
